@@ -43,7 +43,15 @@ struct St {
     trace: Vec<Decision>,
     /// replay diverged (a choice index out of range) or a thread got stuck
     broken: Option<String>,
+    /// threads that were granted a step and did not come back within BLOCK_MS: they block on
+    /// something the wrappers do not see (a lock of the subject held by a thread that waits for
+    /// its turn). They are treated as not runnable until they show up again.
+    blocked: Vec<bool>,
+    run_since: std::time::Instant,
+    blocked_events: u32,
 }
+
+const BLOCK_MS: u128 = 300;
 
 static CTL: Mutex<Option<St>> = Mutex::new(None);
 static CV: Condvar = Condvar::new();
@@ -56,7 +64,7 @@ fn decide(st: &mut St) {
     if st.running.is_some() || st.granted.is_some() || st.broken.is_some() {
         return;
     }
-    if (0..st.n).any(|t| !st.finished[t] && !st.waiting[t]) {
+    if (0..st.n).any(|t| !st.finished[t] && !st.waiting[t] && !st.blocked[t]) {
         return; // somebody has not arrived at its first point yet
     }
     let mut opts: Vec<usize> = (0..st.n).filter(|t| st.waiting[*t]).collect();
@@ -90,6 +98,7 @@ pub fn point(name: &'static str) {
     {
         let Some(st) = g.as_mut() else { return };
         st.waiting[me] = true;
+        st.blocked[me] = false;
         st.names[me] = name;
         if st.running == Some(me) {
             st.running = None;
@@ -110,10 +119,23 @@ pub fn point(name: &'static str) {
                 st.granted = None;
                 st.waiting[me] = false;
                 st.running = Some(me);
+                st.run_since = std::time::Instant::now();
                 return;
             }
+            // the thread that was given the last step has not come back: it blocks outside the
+            // interposed calls
+            if let Some(t) = st.running {
+                if t != me && st.run_since.elapsed().as_millis() > BLOCK_MS {
+                    st.blocked[t] = true;
+                    st.running = None;
+                    st.blocked_events += 1;
+                    decide(st);
+                    CV.notify_all();
+                    continue;
+                }
+            }
         }
-        let (ng, _) = CV.wait_timeout(g, std::time::Duration::from_millis(200)).unwrap_or_else(|e| e.into_inner());
+        let (ng, _) = CV.wait_timeout(g, std::time::Duration::from_millis(50)).unwrap_or_else(|e| e.into_inner());
         g = ng;
         if t0.elapsed().as_secs() > 20 {
             if let Some(st) = g.as_mut() {
@@ -129,6 +151,7 @@ fn finish(me: usize) {
     if let Some(st) = g.as_mut() {
         st.finished[me] = true;
         st.waiting[me] = false;
+        st.blocked[me] = false;
         if st.running == Some(me) {
             st.running = None;
         }
@@ -138,37 +161,66 @@ fn finish(me: usize) {
     CV.notify_all();
 }
 
+/// Result of one controlled execution.
+pub struct Exec<T> {
+    pub results: Vec<std::thread::Result<T>>,
+    pub trace: Vec<Decision>,
+    /// how often a thread was found blocked outside the interposed calls
+    pub blocked_events: u32,
+}
+
+pub enum RunError {
+    /// the choice prefix does not fit this execution (the subject synchronises its threads by
+    /// means the scheduler does not control, so executions are not a function of the choices)
+    Diverged(String),
+    /// the threads did not finish within 30 s
+    Hang(Vec<Decision>),
+}
+
 /// Runs the bodies as controlled threads under the given choice prefix (then "first option"
-/// everywhere). Returns their results and the decisions taken, or the reason the execution is
-/// unusable.
-pub fn run<T: Send + 'static>(bodies: Vec<Box<dyn FnOnce() -> T + Send>>, prefix: &[usize]) -> Result<(Vec<std::thread::Result<T>>, Vec<Decision>), String> {
+/// everywhere).
+pub fn run<T: Send + 'static>(bodies: Vec<Box<dyn FnOnce() -> T + Send>>, prefix: &[usize]) -> Result<Exec<T>, RunError> {
     // keep the interposed definitions in the link whatever the code generation units look like
     std::hint::black_box([read as *const () as usize, pread as *const () as usize, pread64 as *const () as usize, lseek as *const () as usize, lseek64 as *const () as usize, readv as *const () as usize, preadv as *const () as usize, preadv64 as *const () as usize]);
     let n = bodies.len();
     {
         let mut g = CTL.lock().unwrap_or_else(|e| e.into_inner());
         assert!(g.is_none(), "one controlled execution at a time");
-        *g = Some(St { n, waiting: vec![false; n], finished: vec![false; n], names: vec!["start"; n], running: None, granted: None, last: None, prefix: prefix.to_vec(), trace: vec![], broken: None });
+        *g = Some(St { n, waiting: vec![false; n], finished: vec![false; n], names: vec!["start"; n], running: None, granted: None, last: None, prefix: prefix.to_vec(), trace: vec![], broken: None, blocked: vec![false; n], run_since: std::time::Instant::now(), blocked_events: 0 });
     }
-    let hs: Vec<_> = bodies
-        .into_iter()
-        .enumerate()
-        .map(|(i, b)| {
-            std::thread::spawn(move || {
-                ME.with(|m| m.set(Some(i)));
-                point("start");
-                let r = std::panic::catch_unwind(std::panic::AssertUnwindSafe(b));
-                ME.with(|m| m.set(None));
-                finish(i);
-                r
-            })
-        })
-        .collect();
-    let rs: Vec<std::thread::Result<T>> = hs.into_iter().map(|h| h.join().unwrap_or_else(Err)).collect();
+    let (tx, rx) = std::sync::mpsc::channel::<(usize, std::thread::Result<T>)>();
+    for (i, b) in bodies.into_iter().enumerate() {
+        let tx = tx.clone();
+        std::thread::spawn(move || {
+            ME.with(|m| m.set(Some(i)));
+            point("start");
+            let r = std::panic::catch_unwind(std::panic::AssertUnwindSafe(b));
+            ME.with(|m| m.set(None));
+            finish(i);
+            let _ = tx.send((i, r));
+        });
+    }
+    drop(tx);
+    let mut rs: Vec<Option<std::thread::Result<T>>> = (0..n).map(|_| None).collect();
+    let t0 = std::time::Instant::now();
+    let mut got = 0;
+    while got < n {
+        match rx.recv_timeout(std::time::Duration::from_secs(30).saturating_sub(t0.elapsed())) {
+            Ok((i, r)) => {
+                rs[i] = Some(r);
+                got += 1;
+            }
+            Err(_) => {
+                // the threads are abandoned (they may sit in the subject forever)
+                let st = CTL.lock().unwrap_or_else(|e| e.into_inner()).take();
+                return Err(RunError::Hang(st.map(|s| s.trace).unwrap_or_default()));
+            }
+        }
+    }
     let st = CTL.lock().unwrap_or_else(|e| e.into_inner()).take().expect("state");
     match st.broken {
-        Some(m) => Err(m),
-        None => Ok((rs, st.trace)),
+        Some(m) => Err(RunError::Diverged(m)),
+        None => Ok(Exec { results: rs.into_iter().map(|r| r.expect("all reported")).collect(), trace: st.trace, blocked_events: st.blocked_events }),
     }
 }
 
@@ -179,6 +231,12 @@ pub struct Explored {
     /// the explorer stopped at this many executions (0 = not capped)
     pub capped_at: u64,
     pub calls_seen: std::collections::BTreeSet<&'static str>,
+    /// executions whose choice prefix did not fit (see RunError::Diverged): skipped
+    pub diverged: u64,
+    /// threads found blocked outside the interposed calls, over all executions
+    pub blocked_events: u64,
+    /// an execution whose threads never finished: the decisions taken until then
+    pub hang: Option<Vec<Decision>>,
 }
 
 /// Depth-first over choice vectors, at most `bound` preemptions per execution. `mk` builds fresh
@@ -188,15 +246,35 @@ pub fn explore<T: Send + 'static>(
     cap: u64,
     mk: &mut dyn FnMut() -> Vec<Box<dyn FnOnce() -> T + Send>>,
     check: &mut dyn FnMut(&[usize], Vec<std::thread::Result<T>>, &[Decision]),
-) -> Result<Explored, String> {
-    let mut ex = Explored { executions: 0, max_decisions: 0, max_preemptions_used: 0, capped_at: 0, calls_seen: Default::default() };
+) -> Explored {
+    let mut ex = Explored { executions: 0, max_decisions: 0, max_preemptions_used: 0, capped_at: 0, calls_seen: Default::default(), diverged: 0, blocked_events: 0, hang: None };
+    let t0 = std::time::Instant::now();
     let mut stack: Vec<Vec<usize>> = vec![vec![]];
     while let Some(prefix) = stack.pop() {
         if cap != 0 && ex.executions >= cap {
             ex.capped_at = cap;
             break;
         }
-        let (rs, trace) = run(mk(), &prefix)?;
+        // a subject whose threads block each other makes every execution slow (each blocking is
+        // noticed by a timeout): such shapes are cut by time, and the evidence says so
+        if ex.blocked_events > 0 && t0.elapsed().as_secs() > 15 {
+            ex.capped_at = ex.executions;
+            break;
+        }
+        let (rs, trace) = match run(mk(), &prefix) {
+            Ok(e) => {
+                ex.blocked_events += e.blocked_events as u64;
+                (e.results, e.trace)
+            }
+            Err(RunError::Diverged(_)) => {
+                ex.diverged += 1;
+                continue;
+            }
+            Err(RunError::Hang(tr)) => {
+                ex.hang = Some(tr);
+                break;
+            }
+        };
         ex.executions += 1;
         ex.max_decisions = ex.max_decisions.max(trace.len());
         for d in &trace {
@@ -223,7 +301,7 @@ pub fn explore<T: Send + 'static>(
             }
         }
     }
-    Ok(ex)
+    ex
 }
 
 // ---- environment answers: short reads and errors at one chosen read call ----------------------
